@@ -1,4 +1,6 @@
 import PEval.Lemmas.MatchingUnique
+import PEval.Lemmas.MatchingRowMajor
+import PEval.Lemmas.MatchingTotal
 import PEval.Properties.KernelMatchable
 /-!
 # C02 — matching prefers label-compatible pairs, then best score (no blocking pair)
@@ -124,6 +126,204 @@ example : NoTies (mkTbl exCfg exScene) := noTies_of_check (by decide +kernel)
 /-- with a tie (two estimates at the same distance of one ground truth) the first listed wins -/
 example : getObjectResults exCfg { exScene with val := fun _ j => 1 + j } =
     .ok [(1, some 0), (0, some 1), (2, none)] := by decide +kernel
+
+/-! ## the result WITH ties: the exact tie-breaking of the code and a characterisation without any tie hypothesis
+
+`np.nanargmin / np.nanargmax` return the first occurrence of the optimum in the flattened array, and the array is the
+table that remains after the `np.delete`s of the earlier steps.  The rule of the code is therefore: *take the first best
+available cell in row-major order of the remaining table* (the remaining estimate listed first wins; among its cells the
+remaining ground truth listed first).  Below this rule is stated on the table alone (`Avail`, `RowMajorLe`, `SpecPick`,
+`RowMajorRun` do not mention `cands` or `argBest`), every step of the model is shown to be exactly such a pick, the rule
+is shown to be FUNCTIONAL for every table (ties or not), and the results are its unique outcome.  No input is outside
+these theorems; `NoTies` is no longer needed for "the results are THE documented assignment". -/
+
+/-- One step, exactly: `(i, j)` with score `s` is picked iff the cell is available (both objects remain, the cell is
+scored, stage 1: label-compatible), no available cell scores strictly better, and every available cell scoring as well
+is listed later in the row-major order of the remaining table. -/
+theorem pick_is_first_best_row_major {t : Tbl} {s1 : Bool} {es gs : List Nat} (hE : es.Nodup) (hG : gs.Nodup)
+    {i j : Nat} {s : Rat} :
+    argBest t.maximize (cands t s1 es gs) = some (i, j, s) ↔ SpecPick t s1 es gs i j s :=
+  argBest_cands_iff_specPick hE hG
+
+/-- … and a loop stops exactly when no cell is available. -/
+theorem loop_stops_iff_nothing_available {t : Tbl} {s1 : Bool} {es gs : List Nat} :
+    argBest t.maximize (cands t s1 es gs) = none ↔ ∀ i j s, ¬ Avail t s1 es gs i j s :=
+  argBest_cands_none_iff
+
+/-- The remaining lists of a call stay increasing (the matcher starts from the caller's order and only deletes) … -/
+theorem remaining_lists_increasing (t : Tbl) (s1 : Bool) (fuel : Nat) (st : St) (hE : st.es.Pairwise (· < ·))
+    (hG : st.gs.Pairwise (· < ·)) :
+    (stage t s1 fuel st).es.Pairwise (· < ·) ∧ (stage t s1 fuel st).gs.Pairwise (· < ·) :=
+  stage_sorted t s1 fuel st hE hG
+
+/-- … so in terms of the caller's lists the tie-break is: best score; among equal scores the estimate with the smallest
+index; among its cells the ground truth with the smallest index. -/
+theorem pick_is_lex_least {t : Tbl} {s1 : Bool} {es gs : List Nat} (hE : es.Pairwise (· < ·))
+    (hG : gs.Pairwise (· < ·)) {i j : Nat} {s : Rat} :
+    argBest t.maximize (cands t s1 es gs) = some (i, j, s) ↔
+      Avail t s1 es gs i j s ∧ ∀ i' j' s', Avail t s1 es gs i' j' s' →
+        better t.maximize s' s = false ∧ (better t.maximize s s' = false → (i < i' ∨ (i = i' ∧ j ≤ j'))) :=
+  argBest_cands_iff_lex hE hG
+
+/-- The model's run is a run of the rule "first best available cell in row-major order, compatible pairs first" … -/
+theorem refines_row_major_spec (c : Cfg) (sc : Scene) :
+    TwoStageRowMajor (mkTbl c sc) (List.range sc.ests.length) (List.range sc.gts.length)
+      (matchAll (mkTbl c sc) sc.ests.length sc.gts.length) :=
+  matchFrom_refines_rowMajor _ List.nodup_range List.nodup_range
+
+/-- … the rule has at most one outcome on EVERY table (no hypothesis on ties) … -/
+theorem row_major_spec_functional {t : Tbl} {es gs : List Nat} {a b : St}
+    (ha : TwoStageRowMajor t es gs a) (hb : TwoStageRowMajor t es gs b) : a = b :=
+  twoStageRowMajor_unique ha hb
+
+/-- … hence the results of every successful call ARE the outcome of the rule, whatever ties the scores have. -/
+theorem result_is_the_row_major_greedy {c : Cfg} {sc : Scene} {rs : List Res} (h : getObjectResults c sc = .ok rs)
+    {st : St}
+    (hrun : TwoStageRowMajor (mkTbl c sc) (List.range sc.ests.length) (List.range sc.gts.length) st) :
+    rs = resultsOf c.fpValidation st := by
+  rw [getObjectResults_ok h, row_major_spec_functional hrun (refines_row_major_spec c sc)]
+
+/-- The rule with tie-breaking refines the weaker documented relation "take *a* best available pair" (`TwoStageRun`). -/
+theorem row_major_spec_refines_any_best {t : Tbl} {es gs : List Nat} {a : St} (h : TwoStageRowMajor t es gs a) :
+    TwoStageRun t es gs a :=
+  twoStageRowMajor_twoStageRun h
+
+/-! ### a weaker sufficient condition for uniqueness of the any-best relation
+
+`NoTies` fails in the IoU modes as soon as two disjoint pairs both score 0.  `NoBestTies2` only asks that at the steps
+the run goes through the picked score is carried by one candidate; it follows from `NoTies` and is decidable. -/
+
+theorem noBestTies_of_noTies {c : Cfg} {sc : Scene} (hnt : NoTies (mkTbl c sc)) :
+    NoBestTies2 (mkTbl c sc) (List.range sc.ests.length) (List.range sc.gts.length) :=
+  noBestTies2_of_noTies hnt _ _
+
+/-- `greedy_unique_of_no_ties` under the weaker hypothesis: when no STEP of the run has two best candidates, every run of
+"take a best available compatible pair …, then a best available pair …" gives the results. -/
+theorem greedy_unique_of_no_best_ties {c : Cfg} {sc : Scene} {rs : List Res} (h : getObjectResults c sc = .ok rs)
+    (hnt : NoBestTies2 (mkTbl c sc) (List.range sc.ests.length) (List.range sc.gts.length)) {st : St}
+    (hrun : TwoStageRun (mkTbl c sc) (List.range sc.ests.length) (List.range sc.gts.length) st) :
+    rs = resultsOf c.fpValidation st := by
+  rw [getObjectResults_ok h, twoStageRun_eq_matchFrom_of_noBestTies hnt hrun]
+  rfl
+
+/-- `pairs_independent_of_index_order` under the weaker hypothesis. -/
+theorem pairs_independent_of_index_order_local {c : Cfg} {sc : Scene} {rs : List Res}
+    (h : getObjectResults c sc = .ok rs)
+    (hnt : NoBestTies2 (mkTbl c sc) (List.range sc.ests.length) (List.range sc.gts.length)) {es gs : List Nat}
+    (hE : es.Perm (List.range sc.ests.length)) (hG : gs.Perm (List.range sc.gts.length)) :
+    rs.filter (fun r => r.2.isSome) = pairResults (matchFrom (mkTbl c sc) es gs).pairs := by
+  rw [getObjectResults_ok h, filter_isSome_resultsOf, matchFrom_perm_of_noBestTies hnt hE hG]
+  rfl
+
+/-! ### the hypotheses are satisfiable, the statements are sharp -/
+
+/-- an IoU scene: two overlapping pairs (IoU 1/2 and 7/10) and two disjoint ones (IoU 0, a TIE) -/
+def exIou : Scene :=
+  { ests := [⟨"car", "base_link"⟩, ⟨"car", "base_link"⟩], gts := [⟨"car", "base_link"⟩, ⟨"car", "base_link"⟩],
+    val := fun i j => if i == 0 && j == 0 then 1 / 2 else if i == 1 && j == 1 then 7 / 10 else 0 }
+
+def exIouCfg : Cfg := { exCfg with mode := .iou2d }
+
+/-- the global `NoTies` fails on it (cells (0,1) and (1,0) both score 0) … -/
+example : ¬ NoTies (mkTbl exIouCfg exIou) := by
+  intro h
+  have := h 0 1 1 0 0 (by decide +kernel) (by decide +kernel)
+  exact absurd this.1 (by decide)
+
+/-- … the local condition holds (the zeros are never best while both are available) … -/
+example : NoBestTies2 (mkTbl exIouCfg exIou) (List.range exIou.ests.length) (List.range exIou.gts.length) := by
+  decide +kernel
+
+example : getObjectResults exIouCfg exIou = .ok [(1, some 1), (0, some 0)] := by decide +kernel
+
+/-- … and on a scene where the BEST score is tied (all four cells at distance 1) the local condition fails too, while
+the row-major rule still determines the result: estimate 0 takes ground truth 0, then estimate 1 ground truth 1. -/
+def exTie : Scene := { exIou with val := fun _ _ => 1 }
+
+example : ¬ NoBestTies2 (mkTbl exCfg exTie) (List.range exTie.ests.length) (List.range exTie.gts.length) := by
+  decide +kernel
+
+example : getObjectResults exCfg exTie = .ok [(0, some 0), (1, some 1)] := by decide +kernel
+
+/-- the first pick of that run is the pick of the rule (non-vacuity of `pick_is_first_best_row_major`) -/
+example : SpecPick (mkTbl exCfg exTie) true [0, 1] [0, 1] 0 0 1 :=
+  (pick_is_first_best_row_major (by decide) (by decide)).1 (by decide +kernel)
+
+/-- without a tie hypothesis the pairs DO depend on the listing order (so `pairs_independent_of_index_order*` need one):
+listing estimate 1 first gives it ground truth 0 -/
+example : (matchFrom (mkTbl exCfg exTie) [1, 0] [0, 1]).pairs = [(1, 0), (0, 1)] ∧
+    (matchFrom (mkTbl exCfg exTie) [0, 1] [0, 1]).pairs = [(0, 0), (1, 1)] := by decide +kernel
+
+/-- A defective variant of the arg-best: the LAST occurrence of the optimum (what `len - 1 - argmin(reversed)` or a `<=`
+in a hand-written scan would give). -/
+def argBestLast (mx : Bool) : List (Nat × Nat × Rat) → Option (Nat × Nat × Rat)
+  | [] => none
+  | c :: cs =>
+    match argBestLast mx cs with
+    | none => some c
+    | some d => if better mx c.2.2 d.2.2 then some c else some d
+
+/-- It still returns a best candidate (so `argBest_optimal`, `no_blocking_*` and `refines_greedy_spec` could not tell it
+from the real one), but `pick_is_first_best_row_major` FAILS for it: on the tied scene it picks cell (1,1), which is not
+the pick of the rule. -/
+example : argBestLast false (cands (mkTbl exCfg exTie) true [0, 1] [0, 1]) = some (1, 1, 1) ∧
+    ¬ SpecPick (mkTbl exCfg exTie) true [0, 1] [0, 1] 1 1 1 := by
+  refine ⟨by decide +kernel, fun h => ?_⟩
+  have h0 : SpecPick (mkTbl exCfg exTie) true [0, 1] [0, 1] 0 0 1 :=
+    (pick_is_first_best_row_major (by decide) (by decide)).1 (by decide +kernel)
+  exact absurd (specPick_unique h h0).1 (by decide)
+
+/-! non-vacuity of the remaining hypotheses, on the scenes above -/
+
+example : ∀ i' j' s', Avail (mkTbl exCfg exTie) true [0, 1] [0, 1] i' j' s' →
+    better false s' 1 = false ∧ (better false 1 s' = false → (0 < i' ∨ (0 = i' ∧ 0 ≤ j'))) :=
+  ((pick_is_lex_least (t := mkTbl exCfg exTie) (s1 := true) (es := [0, 1]) (gs := [0, 1]) (by decide) (by decide)).1
+    (by decide +kernel)).2
+
+example : (stage (mkTbl exCfg exTie) true 2 { es := List.range 2, gs := List.range 2, pairs := [] }).es.Pairwise (· < ·) :=
+  (remaining_lists_increasing _ true 2 _ List.pairwise_lt_range List.pairwise_lt_range).1
+
+/-- the tied scene is covered by the characterisation: its results are the outcome of the rule -/
+example : [(0, some 0), (1, some 1)] =
+    resultsOf exCfg.fpValidation (matchAll (mkTbl exCfg exTie) exTie.ests.length exTie.gts.length) :=
+  result_is_the_row_major_greedy (c := exCfg) (sc := exTie) (by decide +kernel) (refines_row_major_spec exCfg exTie)
+
+/-- the IoU scene (global ties at 0) is covered by the weaker uniqueness hypothesis, also for another listing order -/
+example : [(1, some 1), (0, some 0)] =
+    resultsOf exIouCfg.fpValidation (matchAll (mkTbl exIouCfg exIou) exIou.ests.length exIou.gts.length) :=
+  greedy_unique_of_no_best_ties (c := exIouCfg) (sc := exIou) (by decide +kernel) (by decide +kernel)
+    (refines_greedy_spec exIouCfg exIou)
+
+example : ([(1, some 1), (0, some 0)] : List Res).filter (fun r => r.2.isSome) =
+    pairResults (matchFrom (mkTbl exIouCfg exIou) [1, 0] [1, 0]).pairs :=
+  pairs_independent_of_index_order_local (c := exIouCfg) (sc := exIou) (by decide +kernel) (by decide +kernel)
+    (by decide) (by decide)
+
+/-! ## companions of the `.ok`-conditional statements (audit C02 finding 3)
+
+`no_blocking_*`, `stage1_exhaustive`, `result_is_the_row_major_greedy` … speak about successful calls.  The call succeeds
+for every well-formed configuration and raises exactly when a same-frame cell of the table raises (`IndexError` of
+`get_label_threshold` for a short threshold list, `AssertionError` of the IoU `is_better_than` for a threshold outside
+`[0, 1]`); details in `PEval.C01` (`cell_raises_iff`, `raises_first_failing_cell`). -/
+
+theorem total_of_wellformed {c : Cfg} (hwf : WFCfg c) (sc : Scene) : ∃ rs, getObjectResults c sc = .ok rs :=
+  getObjectResults_total hwf sc
+
+theorem raises_iff {c : Cfg} {sc : Scene} {err : Err} :
+    getObjectResults c sc = .error err ↔ sc.ests ≠ [] ∧ sc.gts ≠ [] ∧ tableError c sc = some err :=
+  getObjectResults_error_iff
+
+/-- for a well-formed configuration no matchable pair is a blocking pair — unconditionally (totality + `no_blocking_incompatible`) -/
+theorem no_blocking_pair_of_wellformed {c : Cfg} (hwf : WFCfg c) (sc : Scene) :
+    ∃ rs, getObjectResults c sc = .ok rs ∧
+      ∀ i j s, (mkTbl c sc).score i j = some s → (i, some j) ∉ rs →
+        ∃ i' j', (i', some j') ∈ rs ∧ (i' = i ∨ j' = j) ∧
+          ((mkTbl c sc).valid i' j' = true ∨
+            ∃ s', (mkTbl c sc).score i' j' = some s' ∧ better c.mode.maximize s s' = false) := by
+  obtain ⟨rs, h⟩ := getObjectResults_total hwf sc
+  exact ⟨rs, h, fun i j s hs hnot => no_blocking_incompatible h hs hnot⟩
+
+example : WFCfg exCfg := wfCfg_of_no_thresholds (Or.inl rfl)
 
 /-! ## the label rule, for the CODE's decision table
 
